@@ -11,6 +11,7 @@
    flush) is decided per explored history by the write-log check. *)
 From Coq Require Import ZArith List Bool.
 From ADF Require Model.FileIO Proofs.FileIOFr Proofs.FileIOP.
+From ADF Require Import Spec.Names Model.Chain Proofs.ChainFrameP.
 Import ListNotations.
 Local Open Scope Z_scope.
 
@@ -117,7 +118,25 @@ Example C18_handle_example :
 Proof. vm_compute. reflexivity. Qed.
 End H.
 
+(* ---- the directory operations, on the block-level directory model (Model/Chain.v, tied by the correspondence of checks/c02.py: hash table
+        and chain links of the image after every call): creating an entry writes the new block and either one slot of the directory's hash
+        table or the chain link - nothing but the link - of ONE sibling; removing one releases its block and changes one slot or one
+        sibling's link.  Every other entry of the directory keeps its block byte for byte (name and link), for every directory state. ---- *)
+Theorem C18_dir_create_frame : forall intl G d n blk d', insert intl G d n blk = Some d' ->
+  d_hp d' blk = Some {| e_name := trunc30 n; e_next := 0 |} /\
+  (forall i, i <> slot intl n -> d_ht d' i = d_ht d i) /\
+  exists sib, (forall x, x <> blk -> x <> sib -> d_hp d' x = d_hp d x) /\ (sib <> blk -> link_only d d' sib) /\ (sib <> 0 -> forall i, d_ht d' i = d_ht d i).
+Proof. exact insert_frame. Qed.
+
+Theorem C18_dir_remove_frame : forall intl G d n d' b, remove intl G d n = Some (d', b) ->
+  d_hp d' b = None /\
+  (forall i, i <> slot intl n -> d_ht d' i = d_ht d i) /\
+  exists sib, (forall x, x <> b -> x <> sib -> d_hp d' x = d_hp d x) /\ (sib <> b -> link_only d d' sib) /\ (sib <> 0 -> forall i, d_ht d' i = d_ht d i).
+Proof. exact remove_frame. Qed.
+
 Print Assumptions C18_prefix_integrity.
+Print Assumptions C18_dir_create_frame.
+Print Assumptions C18_dir_remove_frame.
 Print Assumptions H.C18_handle_read.
 Print Assumptions H.C18_handle_seek.
 Print Assumptions H.C18_handle_write.
